@@ -171,22 +171,25 @@ func C14(tier string) int {
 	c := report.NewCollector("C14")
 	deadline := explore.Deadline(tier)
 	// part A: every file of the product sweep, with schema
-	cases := explore.Cases(explore.CaseOpts{Tier: tier, Prefixes: true, Edits: true, Seqs: true})
-	explore.Sweep(cases, c, deadline, explore.Opts{Kinds: []run.Kind{run.SymbolsFile}, OnResult: c14Result})
-	// part A2: the same seed files without schema (one entry whose schema is nil)
+	groups := explore.Groups(explore.CaseOpts{Tier: tier, Prefixes: true, Edits: true, Seqs: true})
+	explore.SweepGroups(groups, c, deadline, explore.Opts{Kinds: []run.Kind{run.SymbolsFile}, OnResult: c14Result})
+	// part A2: the structure-template files and the seed forms of the one-constraint bodies without
+	// schema (one entry whose schema is nil)
 	nos := gen.Entry{ID: "S:noschema", Mk: func() *schema.BodySchema { return nil }, Family: "struct", Hooks: -1}
+	sg := explore.Groups(explore.CaseOpts{Tier: tier, Prefixes: true, Edits: true, OnlyFamily: "struct"})
+	explore.ParallelEach(len(sg), c, deadline, func(i int, l *report.Local) {
+		for _, cs := range sg[i]() {
+			ncs := explore.Case{Entry: &nos, File: "main.tf", Text: cs.Text, Family: "noschema", PosTo: -1}
+			explore.SweepCase(&ncs, c, l, explore.Opts{Kinds: []run.Kind{run.SymbolsFile}, OnResult: c14Result})
+		}
+	})
 	var ns []explore.Case
-	seen := map[string]bool{}
-	for i := range cases {
-		if cases[i].Family == "seed" || cases[i].Entry.Family == "struct" {
-			if !seen[cases[i].Text] {
-				seen[cases[i].Text] = true
-				ns = append(ns, explore.Case{Entry: &nos, File: "main.tf", Text: cases[i].Text, Family: "noschema", PosTo: -1})
-			}
+	for _, v := range gen.ValueTexts(tier) {
+		for _, sd := range gen.ConsSeeds(v) {
+			ns = append(ns, explore.Case{Entry: &nos, File: "main.tf", Text: sd, Family: "noschema", PosTo: -1})
 		}
 	}
 	explore.Sweep(ns, c, deadline, explore.Opts{Kinds: []run.Kind{run.SymbolsFile}, OnResult: c14Result})
-	c.Count("cases", int64(len(cases)+len(ns)))
 	// part B: workspace symbols, every subset of unreadable paths, all query substrings
 	c14Workspace(c, tier)
 	return c.Finish(report.FinishOpts{
